@@ -137,7 +137,7 @@ Grace(cfg, obs) == CASE cfg.kind = "Emit" -> (2 * cfg.cap + 3) * cfg.freq
 LiveBound(cfg, obs) == IF cfg.kind = "Throttling" /\ ~obs.cancelled THEN 1 ELSE 0
 \* settle-1: inputs closed, nothing held by the harness, every consumer waiting or done  =>  all closed, goroutines gone
 Settle1(cfg, obs) ==
-  (obs.quiet /\ NIn(obs) > 0 /\ AllInClosed(obs) /\ obs.pending = 0 /\ Drained(obs) /\ obs.now >= obs.lastEnvAt + Grace(cfg, obs)) =>
+  (cfg.kind # "Pipeline" /\ obs.quiet /\ NIn(obs) > 0 /\ AllInClosed(obs) /\ obs.pending = 0 /\ Drained(obs) /\ obs.now >= obs.lastEnvAt + Grace(cfg, obs)) =>
     (AllSeen(obs) /\ obs.live <= LiveBound(cfg, obs))
 \* settle-2: cancelled and inputs closed  =>  goroutines gone, and nobody who does receive is left waiting
 Settle2(cfg, obs) ==
@@ -151,6 +151,28 @@ LiftCloses(cfg, obs) ==
   (cfg.kind \in {"Map", "FMap", "Emit", "Unfold"} /\ cfg.mode = "lift" /\ ~Parallel(cfg) /\ obs.quiet /\ obs.pending = 0
      /\ \E j \in 1..Len(obs.calls) : obs.calls[j].x \in cfg.fail)
     => (obs.live = 0 /\ \A o \in obs.outs : ~obs.rp[o])
+
+(* ==================================================================================== pipelines (spec growth: composition of stages)
+   cfg.kind = "Pipeline": cfg.stages is the sequence of stage configurations, first to last, each int -> int
+   (Map FMap Filter Take TakeWhile Fold Throttling, sequential or forked); error channels go to pipe.StdErr.
+   The end-to-end meaning is the composition of the stages' list images. *)
+RECURSIVE PipeL(_,_,_)
+PipeL(stages, i, s) == IF i > Len(stages) THEN s ELSE PipeL(stages, i + 1, L(stages[i], "out", s))
+PipeParallel(cfg) == \E i \in 1..Len(cfg.stages) : Parallel(cfg.stages[i])
+PipeMonotone(cfg) == \A i \in 1..Len(cfg.stages) : cfg.stages[i].kind # "Fold"
+\* a stage that may stop before its input ends leaves the stages before it blocked until the context is cancelled
+PipeStopsEarly(cfg) == \E i \in 1..Len(cfg.stages) : cfg.stages[i].kind \in {"Take", "TakeWhile"} \/ (cfg.stages[i].mode = "lift" /\ cfg.stages[i].fail # {})
+PipePrefix(cfg, obs) ==
+  (cfg.kind = "Pipeline" /\ PipeMonotone(cfg)) =>
+     IF PipeParallel(cfg) THEN SubBag(obs.got["out"], PipeL(cfg.stages, 1, Offered(obs, 1)))
+                          ELSE IsPrefix(obs.got["out"], PipeL(cfg.stages, 1, Offered(obs, 1)))
+PipeComplete(cfg, obs) ==
+  (cfg.kind = "Pipeline" /\ ~obs.cancelled /\ AllInClosed(obs) /\ obs.seen["out"]) =>
+     IF PipeParallel(cfg) THEN BagEq(obs.got["out"], PipeL(cfg.stages, 1, obs.sent[1]))
+                          ELSE obs.got["out"] = PipeL(cfg.stages, 1, obs.sent[1])
+PipeSettle(cfg, obs) ==
+  (cfg.kind = "Pipeline" /\ ~PipeStopsEarly(cfg) /\ obs.quiet /\ AllInClosed(obs) /\ obs.pending = 0 /\ Drained(obs)
+     /\ obs.now >= obs.lastEnvAt + 100) => (AllSeen(obs) /\ obs.live = 0)
 
 (* ==================================================================================== C08 the unbounded channel *)
 NeverBlocksSender(cfg, obs) == (cfg.kind = "New" /\ obs.quiet /\ ~obs.cancelled /\ ~obs.closed[1]) => obs.pend[1] = <<>>
@@ -229,6 +251,7 @@ Verdicts(cfg, obs) ==
   [Prefix |-> Prefix(cfg, obs), SeqExact |-> SeqExact(cfg, obs), FoldRes |-> FoldRes(cfg, obs), Complete |-> Complete(cfg, obs), TakeBound |-> TakeBound(cfg, obs),
    CallsPrefix |-> CallsPrefix(cfg, obs), CallsComplete |-> CallsComplete(cfg, obs), NoPanic |-> NoPanic(cfg, obs),
    Settle1 |-> Settle1(cfg, obs), Settle2 |-> Settle2(cfg, obs), LiftCloses |-> LiftCloses(cfg, obs),
+   PipePrefix |-> PipePrefix(cfg, obs), PipeComplete |-> PipeComplete(cfg, obs), PipeSettle |-> PipeSettle(cfg, obs),
    NeverBlocksSender |-> NeverBlocksSender(cfg, obs), LosslessAfterCancel |-> LosslessAfterCancel(cfg, obs), NewSettle |-> NewSettle(cfg, obs),
    GenExact |-> GenExact(cfg, obs), EmitPaced |-> EmitPaced(cfg, obs), EmitKeepUp |-> EmitKeepUp(cfg, obs), GenSettle |-> GenSettle(cfg, obs),
    JoinPerInput |-> JoinPerInput(cfg, obs), JoinNothingInvented |-> JoinNothingInvented(cfg, obs), JoinComplete |-> JoinComplete(cfg, obs),
